@@ -773,7 +773,7 @@ class C05(Prop):
     batch = 250
 
     def n_random(self, tier: str) -> int:
-        return 30000 if tier == "quick" else 300000
+        return 20000 if tier == "quick" else 300000
 
     def strategy(self, tier: str, disabled: frozenset[str]):
         return case_strategy(disabled)
